@@ -63,4 +63,19 @@ MUTANTS = {
         "mmc-to-sbc": dict(edits=[(SCSI, "                self.device.opcodes = mmc", "                self.device.opcodes = sbc")]),
         "keep-elif-order": dict(kind="keep", edits=[(SCSI, "            elif self.device.devicetype in (0x03,):  # spc\n                self.device.opcodes = spc\n", "")]),
     },
+    "C09": {
+        "class-level-layout-again": dict(edits=[("pyscsi/pyscsi/scsi_command.py", "        self.cdb = SCSICommand.init_cdb(opcode)\n", "        self.cdb = SCSICommand.init_cdb(opcode)\n        SCSICommand._cdb_bits = self._cdb_bits\n"),
+                                                ("pyscsi/pyscsi/scsi_command.py", "        decode_bits(cdb, cls._cdb_bits, result)", "        decode_bits(cdb, SCSICommand._cdb_bits, result)")]),
+        "last-cdb-length-cache": dict(edits=[("pyscsi/pyscsi/scsi_command.py", "        self.cdb = SCSICommand.init_cdb(opcode)\n", "        self.cdb = SCSICommand.init_cdb(opcode)\n        SCSICommand._last_len = len(self.cdb)\n"),
+                                             ("pyscsi/pyscsi/scsi_command.py", '        result = bytearray(cls.cdb_length(cdb["opcode"]))', "        result = bytearray(SCSICommand._last_len)")]),
+        "converter-scratch-buffer": dict(edits=[("pyscsi/utils/converter.py", "def scsi_int_to_ba(to_convert=0, array_size=4):", "_scratch = bytearray(16)\n\n\ndef scsi_int_to_ba(to_convert=0, array_size=4):"),
+                                                ("pyscsi/utils/converter.py", "    return bytearray((to_convert >> i * 8) & 0xFF for i in reversed(range(array_size)))", "    if array_size > 16:\n        return bytearray((to_convert >> i * 8) & 0xFF for i in reversed(range(array_size)))\n    for i in range(array_size):\n        _scratch[i] = (to_convert >> ((array_size - 1 - i) * 8)) & 0xFF\n    return bytearray(_scratch[:array_size])")]),
+        "result-dict-class-attr": dict(edits=[("pyscsi/pyscsi/scsi_command.py", "        result = {}\n        decode_bits(cdb, cls._cdb_bits, result)\n        return result", "        result = SCSICommand._shared_result\n        result.clear()\n        decode_bits(cdb, cls._cdb_bits, result)\n        return dict(result)"),
+                                              ("pyscsi/pyscsi/scsi_command.py", "    _cdb = None\n", "    _cdb = None\n    _shared_result = {}\n")]),
+        "shared-datain-default": dict(edits=[("pyscsi/pyscsi/scsi_command.py", "        self.datain = bytearray(datain_alloclen)", "        self.datain = SCSICommand._pool.setdefault(datain_alloclen, bytearray(datain_alloclen))"),
+                                             ("pyscsi/pyscsi/scsi_command.py", "    _cdb = None\n", "    _cdb = None\n    _pool = {}\n")]),
+        "keep-lock-around-encode": dict(kind="keep", edits=[("pyscsi/pyscsi/scsi_command.py", "from pyscsi.utils.converter import CheckDict, decode_bits, encode_dict", "import threading\n\nfrom pyscsi.utils.converter import CheckDict, decode_bits, encode_dict\n\n_lock = threading.Lock()"),
+                                                            ("pyscsi/pyscsi/scsi_command.py", '        result = bytearray(cls.cdb_length(cdb["opcode"]))\n        encode_dict(cdb, cls._cdb_bits, result)\n        return result', '        with _lock:\n            result = bytearray(cls.cdb_length(cdb["opcode"]))\n            encode_dict(cdb, cls._cdb_bits, result)\n        return result')]),
+        "keep-instance-layout": dict(kind="keep", edits=[("pyscsi/pyscsi/scsi_command.py", "        self.cdb = SCSICommand.init_cdb(opcode)\n", "        self.cdb = SCSICommand.init_cdb(opcode)\n        self._layout = dict(self._cdb_bits)\n")]),
+    },
 }
